@@ -36,11 +36,56 @@ func navigate(root protoreflect.Message, path []mutStep) protoreflect.Message {
 	return cur
 }
 
+// localShape names one message node by its type and the set of fields that are
+// present in it (not recursive): "RGANode{position_created_at,position_removed_at}"
+// is a dead array slot, "RGANode{element,next}" a live one.
+func localShape(m protoreflect.Message) string {
+	s := string(m.Descriptor().Name()) + "{"
+	fds := m.Descriptor().Fields()
+	for i := 0; i < fds.Len(); i++ {
+		if fd := fds.Get(i); m.Has(fd) {
+			s += string(fd.Name()) + ","
+		}
+	}
+	return s + "}"
+}
+
+// localShapes collects the local shapes of every message node below m.
+func localShapes(m protoreflect.Message, into map[string]bool) {
+	into[localShape(m)] = true
+	m.Range(func(fd protoreflect.FieldDescriptor, v protoreflect.Value) bool {
+		switch {
+		case fd.IsMap():
+			if fd.MapValue().Kind() == protoreflect.MessageKind {
+				v.Map().Range(func(_ protoreflect.MapKey, mv protoreflect.Value) bool {
+					localShapes(mv.Message(), into)
+					return true
+				})
+			}
+		case fd.IsList():
+			if fd.Kind() == protoreflect.MessageKind {
+				for i := 0; i < v.List().Len(); i++ {
+					localShapes(v.List().Get(i).Message(), into)
+				}
+			}
+		case fd.Kind() == protoreflect.MessageKind:
+			localShapes(v.Message(), into)
+		}
+		return true
+	})
+}
+
+// mutatedShapes remembers which local shapes have had their fields mutated in
+// this run: list elements beyond the third are walked only when they show a
+// shape that has not been mutated yet (a dead slot at the end of a long array).
+var mutatedShapes = map[string]bool{}
+
 // structuralMutations yields every single structural mutation of m, one at a
 // time, each on a fresh clone.
 func structuralMutations(m proto.Message, yield func(mut proto.Message, desc string)) {
 	var walk func(cur protoreflect.Message, path []mutStep, pstr string)
 	walk = func(cur protoreflect.Message, path []mutStep, pstr string) {
+		mutatedShapes[localShape(cur)] = true
 		fds := cur.Descriptor().Fields()
 		for i := 0; i < fds.Len(); i++ {
 			fd := fds.Get(i)
@@ -92,7 +137,10 @@ func structuralMutations(m proto.Message, yield func(mut proto.Message, desc str
 							ll := msg.Mutable(fd).List()
 							ll.Append(ll.NewElement())
 						})
-						for j := 0; j < l.Len() && j < 3; j++ {
+						for j := 0; j < l.Len(); j++ {
+							if j >= 3 && mutatedShapes[localShape(l.Get(j).Message())] {
+								continue
+							}
 							walk(l.Get(j).Message(), append(append([]mutStep{}, path...), mutStep{fd: fd, idx: j}), fmt.Sprintf("%s[%d]", fpath, j))
 						}
 					} else if fd.Kind() == protoreflect.BytesKind {
